@@ -7,6 +7,7 @@ import (
 	"encoding/json"
 	"fmt"
 	"net/url"
+	"regexp"
 	"runtime/debug"
 	"sort"
 	"strings"
@@ -582,12 +583,30 @@ func safeEncode(c *codec.Codec, m protoreflect.Message) (b []byte, err error) {
 	return c.ProtoToJSON(m)
 }
 
+var camelKey = regexp.MustCompile(`"([a-z][a-z0-9]*[A-Z][A-Za-z0-9]*)":`)
+
 func mutateJSON(js []byte, k int, seed uint64) []byte {
 	if k == 0 || len(js) == 0 {
 		return js
 	}
 	rng := simrt.NewRng(simrt.Derive(seed, uint64(k), 77))
 	out := append([]byte{}, js...)
+	if k >= 6 {
+		// the proto (snake_case) spelling of the first camelCase key: not a J5 JSON name
+		if m := camelKey.FindSubmatchIndex(out); m != nil {
+			key := string(out[m[2]:m[3]])
+			var sb strings.Builder
+			for _, r := range key {
+				if r >= 'A' && r <= 'Z' {
+					sb.WriteByte('_')
+					sb.WriteRune(r + 32)
+				} else {
+					sb.WriteRune(r)
+				}
+			}
+			return append(append(append([]byte{}, out[:m[2]]...), sb.String()...), out[m[3]:]...)
+		}
+	}
 	if k >= 5 {
 		// structurally valid JSON that a nested any rejects: drop its "!type" member
 		if i := bytes.Index(out, []byte(`"!type":"`)); i >= 0 {
@@ -886,7 +905,7 @@ func genWorkload(seed uint64, deep bool) *Workload {
 			}
 		}
 		if (op.Kind == "decode" || op.Kind == "query" || op.Kind == "decode_any") && rng.Bool(0.2) {
-			op.Mutate = 1 + rng.Intn(5) // failing operation by construction
+			op.Mutate = 1 + rng.Intn(6) // failing operation by construction
 		}
 		if (op.Kind == "encode" || op.Kind == "encode_any" || op.Kind == "walk") && rng.Bool(0.12) {
 			op.Poison = 1 + rng.Intn(2) // failing encode: fails after part of the output was written
